@@ -264,7 +264,7 @@ class Gen:
             o.frozen = True
         if kind == "dataclass" and self.on("generic", 0.1) and not o.frozen and not any(isinstance(n, Ref) for f in o.fields for n in f.t.walk()):
             # (a forward reference to a generic class names its unspecialised form: recursion is kept out of generic classes)
-            cands = [f for f in o.fields if not f.aggregate and not f.initvar and f.default is None and f.factory is None and not f.undefined
+            cands = [f for f in o.fields if not f.aggregate and not f.initvar and f.default is None and f.factory is None and not f.undefined and not f.none_as_undefined
                      and not any(isinstance(n, Ref) for n in f.t.walk())]
             for f in r.sample(cands, min(len(cands), r.choice([1, 1, 2]))):
                 tv = TVar(self.fresh("TV"), f.t)
@@ -363,7 +363,9 @@ class Gen:
                     f.t = opt(f.t)
                 elif not any(isinstance(a, Prim) and a.p == "none" for a in f.t.alts):
                     f.t = Union_([*f.t.alts, Prim("none")])
-                f.default = "None"
+                if kind != "dataclass" or r.random() < 0.65:
+                    f.default = "None"
+                # else: required key; None can only be given by construction (then serialized as absent)
                 f.none_as_undefined = True
 
     def _give_default(self, f, base):
